@@ -170,6 +170,9 @@ def _model(draw):
     m["MyIt"].append(["Last", ["tv", "T"]])
     m["Pair"].append(["second", ["tv", "U"]])
     m["Pair"].append(["first", ["tv", "T"]])
+    # collections whose element type is unknown: a method without return annotation used inside Select, an Iterable[Any]
+    m[draw(st.sampled_from(["Jet", "Trk"]))].append(["raw", None])
+    m[draw(st.sampled_from(["Evt", "Jet"]))].append(["anys", draw(st.sampled_from([["it", ["any"]], ["c", "MyIt", [["any"]]]]))])
     m["It2"].append(["Key", ["tv", "K"]])
     # the sources of the mixed-arity subclasses must be reachable from the event
     holder = draw(st.sampled_from(["Evt", "Jet"]))
